@@ -452,6 +452,8 @@ class Engine:
             if isinstance(it, RaiseExc):
                 outs.append((s, it))
                 continue
+            if isinstance(it, Ref) and type(s.obj(it)).__name__ == "HGen" and any(isinstance(n, (ast.Break, ast.Return)) for n in ast.walk(node)):
+                raise EngineUnsupported("loop over a generator object that may stop early (the rest of the generator stays available)")
             seq = self.concrete_iter(s, it)
             if seq is not None:
                 outs += self.unroll_concrete(node, s, seq, k)
@@ -468,6 +470,10 @@ class Engine:
             return list(it)
         if isinstance(it, Ref) and isinstance(st.obj(it), HList):
             return list(st.obj(it).items)
+        if isinstance(it, Ref) and type(st.obj(it)).__name__ == "HGen":
+            g = st.obj(it)
+            items, g.items = list(g.items), []  # exhausted from now on (a loop that breaks early is not modelled: see st_For)
+            return items
         if isinstance(it, SRange):
             lo, hi = determined_int(st.pc, int_term(it.lo)), determined_int(st.pc, int_term(it.hi))
             if lo is not None and hi is not None:
@@ -1017,7 +1023,14 @@ class Engine:
         return outs
 
     def ex_GeneratorExp(self, node, st):
-        return self._comp(node, st)
+        outs = self._comp(node, st)
+        if id(node) in getattr(self, "direct_gens", ()):
+            return outs  # sole consumer is the call it is an argument of: computed on the spot
+        # bound to a name / stored / returned: a generator object, which can be iterated ONCE (a second loop over it sees nothing)
+        from pyvc.values import HGen
+        if any(isinstance(v, RaiseExc) for _, v in outs):
+            raise EngineUnsupported("generator expression whose elements may raise, not consumed where it is written")
+        return [(s, s.alloc(HGen(v))) for s, v in outs]
 
     def ex_ListComp(self, node, st):
         return [(s, v if isinstance(v, RaiseExc) else s.alloc(HList(v))) for s, v in self._comp(node, st)]
@@ -1053,6 +1066,9 @@ class Engine:
         if any(isinstance(a, ast.Starred) for a in node.args) or any(k.arg is None for k in node.keywords):
             raise EngineUnsupported("star-args")
         es = [node.func] + list(node.args) + [k.value for k in node.keywords]
+        if not hasattr(self, "direct_gens"):
+            self.direct_gens = set()
+        self.direct_gens.update(id(a) for a in node.args if isinstance(a, ast.GeneratorExp))
         for s, vals in self.evs(es, st):
             if isinstance(vals, RaiseExc):
                 outs.append((s, vals))
